@@ -386,6 +386,68 @@ func c09Judge(c *mon.Ctx, s *model.Schema, class string, sample bool) {
 	}
 }
 
+// c09SecondRoot: after the complete root was built and checked, the same text is built again over
+// the same type objects without one type that is named only inside other types.
+func c09SecondRoot(c *mon.Ctx, s *model.Schema, sp lib.Spec) {
+	inRoot := map[string]bool{}
+	for _, n := range model.ReferencedTypes(s.Root) {
+		inRoot[n] = true
+	}
+	drop := ""
+	for _, t := range s.Types {
+		if t.Root == nil {
+			continue
+		}
+		for _, n := range model.ReferencedTypes(t.Root) {
+			if !inRoot[n] && s.Type(n) != nil && n != t.Name {
+				drop = n
+			}
+		}
+	}
+	if drop == "" {
+		return
+	}
+	s2 := s.Clone()
+	var ts []*model.TypeDef
+	for _, t := range s2.Types {
+		if t.Name != drop {
+			ts = append(ts, t)
+		}
+	}
+	s2.Types = ts
+	if m := model.MissingTypes(s2); len(m) != 1 || m[0] != drop || !c09OnlyMissing(s2, m) {
+		return
+	}
+	sp.SecondWithout = drop
+	first, bo := lib.Build(sp)
+	if !bo.OK {
+		return
+	}
+	second := lib.SecondOf(first)
+	if o := lib.CheckObs(first); !o.OK || second == nil {
+		return
+	}
+	obs := lib.CheckObs(second)
+	c.Eval(1)
+	c.Count("second roots over the same type objects, one type withheld", 1)
+	if obs.OK || obs.Panic != "" {
+		c.Violate("second-root", c09Case{Spec: sp}, "reject naming "+drop, obs.String(), "a root that was not given a type named inside a shared type passes Check after a complete root over the same type objects was checked")
+		return
+	}
+	// and it fails the way a root built from fresh objects without that type fails
+	fsp := sp
+	fsp.SecondWithout = ""
+	fsp.Types = nil
+	for _, t := range sp.Types {
+		if t.Name != drop {
+			fsp.Types = append(fsp.Types, t)
+		}
+	}
+	if fresh := lib.Check(fsp); fresh.Panic == "" && (fresh.OK != obs.OK || fresh.Code != obs.Code || fresh.Pos != obs.Pos) {
+		c.Violate("second-root", c09Case{Spec: sp}, "as on fresh objects: "+fresh.String(), obs.String(), "the second root over used type objects fails differently from a root over fresh objects")
+	}
+}
+
 func c09JudgeCfg(c *mon.Ctx, s *model.Schema, class string, sample bool, fullReg, preRoot bool) {
 	sp := specOf(s, model.Style{})
 	sp.FullReg = fullReg
@@ -462,6 +524,11 @@ func c09JudgeCfg(c *mon.Ctx, s *model.Schema, class string, sample bool, fullReg
 			c.Violate("recursion", c09Case{Spec: sp}, "accept", obs.String(), "Check rejects a legal graph")
 			return
 		}
+		// the complete root was checked: a second root over the same type objects that was NOT
+		// given one of the types another type names must still fail, naming it
+		if !fullReg && !preRoot && !sp.ChainReg {
+			c09SecondRoot(c, s, sp)
+		}
 	}
 	if sample {
 		c.Sample(class, map[string]any{"spec": sp, "expected": want.String(), "why": why})
@@ -535,6 +602,20 @@ func init() {
 					return o.String()
 				}
 				return "no panic"
+			},
+			"second-root": func(raw json.RawMessage) string {
+				var cs c09Case
+				json.Unmarshal(raw, &cs)
+				first, bo := lib.Build(cs.Spec)
+				if !bo.OK {
+					return "construction failed: " + bo.String()
+				}
+				second := lib.SecondOf(first)
+				lib.CheckObs(first)
+				if second == nil {
+					return "no second root"
+				}
+				return lib.CheckObs(second).String()
 			},
 			"used": func(raw json.RawMessage) string {
 				var cs c09Case
